@@ -218,13 +218,49 @@ class Builder:
             return self.magpy.Sensor(pixel=pts * (kap.lam / den), position=pos, orientation=rot)
         return np.array([kap.pos(p / den) for p in pts])
 
-    def measure(self, cfg, kp, fields, ngon=None, fine=0, at=0):
+    def collection_move(self, srcs, sensor, via, act, cfg, kap):
+        """The abstract step RigidMove(g, t) realised the way users move a whole setup: the objects (built in the first frame) are
+        put into a Collection - flat, or nested two levels deep with inner collections at other positions - and the collection is
+        rotated / moved / re-posed.  In the global frame the step is x -> Rg x + T."""
+        m = self.magpy
+        den = cfg["den"]
+        Rg = kap.RG * mat_to_rot(act["g"]) * kap.RG.inv()
+        T = kap.tG - Rg.apply(kap.tG) + kap.lam * kap.RG.apply(np.array(act["t"], dtype=float) / den)
+        c0, c1, c2 = (kap.pos(np.array(c, dtype=float) / den) for c in ((6, -10, 4), (-14, 2, 8), (4, 12, -6)))
+        members = list(srcs) + ([sensor] if sensor is not None else [])
+        outer = m.Collection(position=c0)
+        if via == "flat_rot":
+            outer.add(*members)
+        else:
+            inner = m.Collection(position=c2)
+            inner.add(members[0])
+            mid = m.Collection(position=c1)
+            mid.add(inner)
+            outer.add(mid, *members[1:])
+        if via in ("flat_rot", "nest_rot"):
+            outer.rotate(Rg)                                   # anchor=None: about the position of the outer collection
+            outer.move(T + Rg.apply(c0) - c0)
+        elif via == "nest_rot0":
+            outer.rotate(Rg, anchor=0)
+            outer.move(T)
+        elif via == "nest_set":
+            outer.orientation = Rg * outer.orientation
+            outer.position = Rg.apply(c0) + T
+        else:
+            raise MachineryError(f"unknown realisation {via}")
+
+    def measure(self, cfg, kp, fields, ngon=None, fine=0, at=0, via=None, act=None, obs_cfg=None):
         """-> {"f": {field: array [source][path index][observer][3]}, "mesh": [status per source], "pathlen": M}
         Vectors are returned in the abstract frame (global rotation of kappa undone) unless read by the Sensor."""
         m = self.magpy
         kap = make_kappa(kp, cfg)
         srcs = [self.source(s, cfg, kap, ngon, fine, at) for s in cfg["srcs"]]
         obs = self.observers(cfg, kap, fine, at)
+        if via:
+            sensor = obs if cfg["sens"]["on"] else None
+            self.collection_move(srcs, sensor, via, act, cfg, kap)
+            if sensor is None:
+                obs = self.observers(obs_cfg, kap)             # the observer points of the moved configuration
         out = {}
         for f in fields:
             fn = {"B": m.getB, "H": m.getH, "J": m.getJ}[f]
@@ -307,7 +343,10 @@ class Instancer:
             ev["mesh"] = {"b": mb["mesh"], "a": mb["mesh"]}
             ev["obs"] = obs
             return ev
-        if act["name"] == "Freeze" and fe:
+        if act.get("via"):
+            # after: the SAME objects as before, moved as members of a collection
+            ma = self.b.measure(pre, kp, fields, fine=fe, via=act["via"], act=act, obs_cfg=post)
+        elif act["name"] == "Freeze" and fe:
             # the static placement at pose number m of the SAME image paths (the abstract post-configuration is their lattice original)
             ma = self.meas(pre, kp, fields, None, fe, act["m"])
         else:
@@ -447,7 +486,7 @@ def run_check(pid, rep, cap=None):
     rep.set("instances_planned", len(insts))
     kinds = {}
     for i in insts:
-        k = i["act"]["name"] + (":" + str(i["act"].get("rep", i["act"].get("kind", i["act"].get("op", "")))) if i["act"]["name"] in ("Convert", "SplitSeg", "Op") else "")
+        k = i["act"]["name"] + (":" + i["act"]["via"] if i["act"].get("via") else "") + (":" + str(i["act"].get("rep", i["act"].get("kind", i["act"].get("op", "")))) if i["act"]["name"] in ("Convert", "SplitSeg", "Op") else "")
         kinds[k] = kinds.get(k, 0) + 1
     rep.set("instances_by_action", kinds)
     files, nlogged = run_plan(insts, f"laws_{pid}")
@@ -523,7 +562,9 @@ def replay_case(case):
         return 0
     fe = inst.get("fine", 0)
     mb = it.meas(inst["pre"], inst["kappa"], fields, None, fe)
-    if inst["act"]["name"] == "Freeze" and fe:
+    if inst["act"].get("via"):
+        ma = it.b.measure(inst["pre"], inst["kappa"], fields, fine=fe, via=inst["act"]["via"], act=inst["act"], obs_cfg=inst["post"])
+    elif inst["act"]["name"] == "Freeze" and fe:
         ma = it.meas(inst["pre"], inst["kappa"], fields, None, fe, inst["act"]["m"])
     else:
         ma = it.meas(inst["post"], inst.get("kappa2", inst["kappa"]), fields, None, fe)
